@@ -280,7 +280,15 @@ fn scenario(cfg: &RunCfg, seq: u64, witness: bool, lean: &mut Option<LeanDriver>
     let short_end = end(short);
     let mut attempts: Vec<Vec<DeclS>> = vec![];
     let one = |ne: i64, m: Vec<u64>, d: Vec<u64>| vec![DeclS { new_exp: ne, plain: vec![], with_claims: vec![(SECTOR, m, d)] }];
-    if witness {
+    if seq == 1 {
+        // second witness: the sector listed in two declarations of one message; its claims are
+        // validated against the first declaration's new expiration only
+        let ne = short_end + 2880;
+        attempts.push(vec![
+            DeclS { new_exp: si0.expiration, plain: vec![], with_claims: vec![(SECTOR, vec![long, short], vec![])] },
+            DeclS { new_exp: ne, plain: vec![SECTOR], with_claims: vec![] },
+        ]);
+    } else if witness {
         let ne = short_end + 2880;
         attempts.push(one(ne, vec![long, short], vec![]));        // refused: short claim's term
         attempts.push(one(ne, vec![long], vec![short]));          // refused: not in the final 30 days
@@ -311,6 +319,13 @@ fn scenario(cfg: &RunCfg, seq: u64, witness: bool, lean: &mut Option<LeanDriver>
                     ]);
                 }
                 1 => attempts.push(vec![DeclS { new_exp: ne, plain: vec![SECTOR], with_claims: vec![] }]),
+                3 => {
+                    // the sector in two declarations with different new expirations
+                    let first = if r.chance(1, 2) { si0.expiration } else { short_end - r.range(0, 3) };
+                    let second = DeclS { new_exp: ne, plain: if r.chance(1, 2) { vec![SECTOR] } else { vec![] }, with_claims: vec![] };
+                    let second = if second.plain.is_empty() { DeclS { with_claims: vec![(SECTOR, vec![], vec![])], ..second } } else { second };
+                    attempts.push(vec![DeclS { new_exp: first, plain: vec![], with_claims: vec![(SECTOR, m, d)] }, second]);
+                }
                 2 => attempts.push(vec![DeclS { new_exp: ne, plain: vec![], with_claims: vec![(SECTOR, vec![m.first().cloned().unwrap_or(long)], vec![]), (SECTOR, vec![m.last().cloned().unwrap_or(long)], d)] }]),
                 _ => attempts.push(one(ne, m, d)),
             }
@@ -360,11 +375,13 @@ fn scenario(cfg: &RunCfg, seq: u64, witness: bool, lean: &mut Option<LeanDriver>
         }
         let mut seen = HashSet::new();
         let repeated = declared.iter().any(|x| !seen.insert(*x));
+        let listing = decls.iter().filter(|d| d.plain.contains(&SECTOR) || d.with_claims.iter().any(|x| x.0 == SECTOR)).count();
         let what = format!(
-            "ExtendSectorExpiration2 at epoch {} declaring {}{}",
+            "ExtendSectorExpiration2 at epoch {} declaring {}{}{}",
             epoch,
             decls.iter().map(decl_word).collect::<Vec<_>>().join(" "),
-            if repeated { " (repeated claim id in declaration)" } else { "" }
+            if repeated { " (repeated claim id in declaration)" } else { "" },
+            if !repeated && listing > 1 { " (sector listed in more than one declaration)" } else { "" }
         );
         if res.ok() {
             let really_dropped: BTreeSet<u64> = backing.intersection(&dropped).cloned().collect();
